@@ -32,4 +32,4 @@ def run(ctx):
         violation(ctx, "the retry-loop translator could not read the final-flush loop: " + ((r.stdout or "") + (r.stderr or ""))[-400:],
                   "# translator tools/gen_loops.py failed; theorem Feox.C18.final_flush_terminates cannot be re-checked\n" + (r.stdout or "") + (r.stderr or ""), no_input=True, tag="loops")
     return conc_check(ctx, MODULE, THEOREMS, ['C18', 'C07'], "termination", ASSUME,
-                      extra_quick=('cases=60', 'races=6', 'contend=25', 'scanrace=4', 'ring=1', 'flushstorm=1'), extra_thorough=('cases=1500', 'races=80', 'contend=600', 'scanrace=60', 'ring=6', 'flushstorm=3'), rule=RULE)
+                      extra_quick=('cases=60', 'races=6', 'contend=25', 'scanrace=4', 'ring=1', 'flushstorm=1', 'manyflush=2'), extra_thorough=('cases=1500', 'races=80', 'contend=600', 'scanrace=60', 'ring=6', 'flushstorm=3', 'manyflush=30'), rule=RULE)
